@@ -34,6 +34,16 @@ CHECKS = {
         design_ref='DESIGN.md §3 C05',
         note=TB + 'A-ROOT: root move list non-empty (the property\'s precondition); table scores may steer the choice among legal moves.',
         technique='static: CFG path rules, sentinel dataflow, taint + dominating-guard (control dependence) rule'),
+    'C07': dict(
+        category='other',
+        text='Partial: history push/pop discipline (one per do/undo on every path, none for null moves, nobody else), both '
+             'repetition scans over the same index range against the current full key with thresholds 3 and 2, the '
+             'insufficient-material whitelist evaluated by clang equals {K-K, KN-K, KB-K, K-KN, K-KB} and the count-vector '
+             'packing agrees with Piece numbering and readers, rule50 threshold, is_draw disjunction, checkmate/stalemate '
+             'decision tables, attacker-kind cover of is_in_check, consumers. Agreement with the rules for each concrete game is not decided.',
+        design_ref='DESIGN.md §3 C07',
+        note=TB + 'a king never attacks a king in a legal position; uint8 clock wrap after 255 reversible plies is reported as information.',
+        technique='static: PAIR/WHO rules, loop-shape sibling agreement, TABLE relation on clang-evaluated constants, DECISION tables'),
     'C08': dict(
         category='other',
         text='Partial (necessary conditions): the -VALUE_INFINITE initialiser of a max-accumulation loop is never '
@@ -54,6 +64,18 @@ CHECKS = {
         design_ref='DESIGN.md §3 C09',
         note=TB + 'root PV head being an element of the root list relies on C05.R3/R4.',
         technique='static: reaching-definition/interval clamp rule, loop-cycle and dominance rules, recursion measure rule'),
+    'C02': dict(
+        category='other',
+        text='Partial: the update discipline of Position::do_move on every path class. The three board primitives write '
+             'every redundant representation and the key consistently and nobody else writes them; the half-move clock is '
+             'written exactly once per path (incremented for castling and non-pawn non-captures, reset otherwise); the six '
+             'castling-right revocation classes occur exactly once with the right colour/wing mask over checked tables; '
+             'e.p. square set only behind a double push with mirror-consistent ranks; history push after all key updates; '
+             'the symbolic board effect of each of the seven path classes equals the rule of chess for that kind of move; '
+             'replay commands funnel through parse_uci + do_move. The FEN of the result for every concrete pair is not enumerated.',
+        design_ref='DESIGN.md §3 C02',
+        note=TB + 'A-EP, A-PROMO; the moved piece belongs to the side to move.',
+        technique='static: path-class effect summaries vs a rule table, SYNC/WHO rules, control-dependence classification'),
     'C03': dict(
         category='proof',
         text='Restoration is a pairing property. Decides, on every path: per path class (castling K/Q, e.p., capture x '
@@ -103,6 +125,17 @@ CHECKS = {
         design_ref='DESIGN.md §3 C11',
         note=TB + 'geometry of the 8x8 board implemented once in the checker; RAYS/MASK tables hold what their (structurally checked) builders compute.',
         technique='static: exhaustive relation check over source constants (MAGIC), structural agreement rules, static_assert witness'),
+    'C15': dict(
+        category='other',
+        text='capture/quiet: full relative to five named atoms — both predicates are converted to 32-row decision tables and '
+             'equal the specification. gives-check: partial — from()/to() are only evaluated where the move is known not to '
+             'be castling (all deciding functions, lambdas included), the direct-check switch is driven by the promoted kind, '
+             'covers six kinds with their own attack pattern, discovered checks use the updated occupancy, the e.p. victim is '
+             'removed, the castling arm tests the rook destination; the search consults the predicates before do_move. '
+             'Equality of the bitboard expressions with "king attacked afterwards" for every position rests on C11.',
+        design_ref='DESIGN.md §3 C15',
+        note=TB + 'legal positions (no pre-existing check by the mover).',
+        technique='static: DECISION tables over resolved comparison atoms, dominating-guard (control dependence) rule, COVER'),
     'C16': dict(
         category='proof',
         text='Encoding: full — bit layouts of create_move/create_promotion/create_castling and from/to/promotion/castling '
@@ -114,6 +147,17 @@ CHECKS = {
         design_ref='DESIGN.md §3 C16',
         note=TB + 'well-formed input text (A-WF).',
         technique='static: PACK layout extraction, TABLE inverse relations over source literals, static_assert witness'),
+    'C17': dict(
+        category='other',
+        text='Partial: the printer\'s output language — derived by abstract interpretation of san()/san_without_check() over '
+             'sequences of character classes from the source string tables — is included in the parser\'s accept language '
+             '(castling literals with the suffix handling found in the code, union L(SAN_REGEX) compiled to an automaton by the '
+             'checker); from()/to() validity in parser and printer filters (C15.R2); printer and parser select candidates by '
+             'the same criteria from the same generator; piece/promotion letter tables invert; regex groups feed the right '
+             'variables. Uniqueness of the printed SAN in each concrete position is not decided.',
+        design_ref='DESIGN.md §3 C17',
+        note=TB + 'regex subset: classes, ?, groups, escapes (anything else => analysis broken).',
+        technique='static: language inclusion on automata built from source literals, criteria COVER, TABLE inverses'),
     'C20': dict(
         category='proof',
         text='Full under real arithmetic with monotone rounding: abstract interpretation (interval x monotonicity-in-own-'
